@@ -56,6 +56,7 @@ type Engine struct {
 	strOps        map[string]bool
 	loopStates    map[*loopInfo]*liState
 	oblCount      map[string]int
+	recMemo       map[*ssa.Function]bool
 	callsSeen     map[string]int
 	inlineMemo    map[*ssa.Function]string
 	pendingWrites []map[string]bool
@@ -87,6 +88,7 @@ func newEngine(w *World) *Engine {
 		guard: "true", curExitCode: "(_ bv0 64)", epochs: map[string]int{}, hookKeys: map[string]bool{}, allocReach: map[string]string{}, pureMemo: map[string]Val{}, loopAllocN: map[string]int{}, tags: map[string]int{}, funcIDs: map[*ssa.Function]int{}, abstracted: map[string]int{}, assumedExt: map[string]int{},
 		inlined: map[string]int{}, usedContracts: map[string]int{}, uf: map[string]bool{}, strOps: map[string]bool{}, loopStates: map[*loopInfo]*liState{}, oblCount: map[string]int{}, memo: map[string]execResult{}, dirty: map[string]bool{}}
 	e.inlineMemo = map[*ssa.Function]string{}
+	e.recMemo = map[*ssa.Function]bool{}
 	e.callsSeen = map[string]int{}
 	e.sc.add("(declare-sort F64 0)")
 	e.sc.add("(declare-const f64_zero F64)")
@@ -244,13 +246,15 @@ type retSite struct {
 }
 
 type loopInfo struct {
-	header *ssa.BasicBlock
-	blocks map[*ssa.BasicBlock]bool
-	invs   []*ssa.Call // ghost invariant calls (in source order)
-	decs   []*ssa.Call
-	cone   []ssa.Instruction // pure instructions (outside header) feeding ghost calls, in order
-	base   string            // allocation base symbol of the loop body
-	points []ssa.Value       // addresses of single cells written in the loop
+	header      *ssa.BasicBlock
+	blocks      map[*ssa.BasicBlock]bool
+	invs        []*ssa.Call // ghost invariant calls (in source order)
+	decs        []*ssa.Call
+	cone        []ssa.Instruction // pure instructions (outside header) feeding ghost calls, in order
+	base        string            // allocation base symbol of the loop body
+	points      []ssa.Value       // addresses of single cells written in the loop
+	fieldPoints []*ssa.FieldAddr
+	slicePoints []ssa.Value
 }
 
 type execResult struct {
